@@ -49,6 +49,8 @@ def scenarios(tier):
                          scripts={'A': [('send', hexn(5))], 'B': []}, keepalive={'A': 2, 'B': 1}, idle={'A': 0, 'B': 5},
                          seg_mru={'A': mru, 'B': mru}, tx_init={'A': init, 'B': init}, max_ticks=4))
     out.append(dict(name='silent-peer', kind='enum', runner='run_silent_peer', params=dict(thorough=thorough), weight=5))
+    # the peer does not fall silent but vanishes (connection reset), with and without idle timer, at every stage
+    out.append(dict(name='peer-reset', kind='enum', runner='run_peer_reset', params=dict(name='peer-reset', prop=PROP), weight=5))
     out.append(dict(name='adaptive', kind='enum', runner='run_adaptive', params=dict(thorough=thorough), weight=50))
     out.append(dict(name='partial-reads', kind='enum', runner='run_partial_reads', params=dict(), weight=10))
     out.append(dict(name='keepalive-busy', kind='enum', runner='run_keepalive_busy', params=dict(), weight=10))
@@ -57,6 +59,13 @@ def scenarios(tier):
     out.append(dict(name='file-timers', kind='enum', runner='run_file_timers', params=dict(), weight=10))
     out.append(dict(name='slow-negotiation', kind='enum', runner='run_slow_negotiation', params=dict(), weight=10))
     return out
+
+
+def run_peer_reset(params, known):
+    from .c09 import run_peer_reset as run
+    res = run(params, known)
+    res['kind'] = 'enum'
+    return res
 
 
 def run_silent_peer(params, known):
